@@ -947,7 +947,7 @@ def get_input_string(
         inp = files[possible_inputs[0]]
 
         # Somehow, spurious newlines appear when reading files...
-        inp = inp[:-1] if inp[-1] == "\n" else inp
+        inp = inp[:-1] if inp.endswith("\n") else inp
 
     def solver():
         return ISLaSolver(grammar, constraint)
@@ -955,11 +955,17 @@ def get_input_string(
     def graph():
         return gg.GrammarGraph.from_grammar(grammar)
 
-    return (
-        safe(lambda: json.loads(inp))()
-        .map(DerivationTree.from_parse_tree)
-        .map(lambda tree: eassert(tree, graph().tree_is_valid(tree)))
-        .lash(lambda _: safe(lambda: solver().parse(inp, skip_check=True))())
+    def tree_from_json() -> DerivationTree:
+        # Raises an exception if `inp` is not the JSON representation of a valid
+        # derivation tree (e.g., if it is a JSON number or string). In that case,
+        # we fall back to parsing `inp` as a string.
+        tree = DerivationTree.from_parse_tree(json.loads(inp))
+        if not graph().tree_is_valid(tree):
+            raise ValueError("Not a valid derivation tree for the given grammar")
+        return tree
+
+    return safe(tree_from_json)().lash(
+        lambda _: safe(lambda: solver().parse(inp, skip_check=True))()
     )
 
 
